@@ -57,6 +57,10 @@ def opDiscString (req : J) : J :=
   mkObj [("s", S s), ("h", S (codec.hash (jstr req "alg") s)),
          ("roundtrip", .bool (match codec.parse (codec.render j) with
             | some j' => (j' == j)
+            | none => false)),
+         -- the verified reader of the model (`JText.parseAll`) on the same text
+         ("model_reader", .bool (match JText.parseAll (JText.render j) with
+            | some j' => (j' == j)
             | none => false))]
 
 def partsJ (p : Impl.Parts) : J :=
